@@ -284,6 +284,142 @@ def check_p3(rep, idx):
             rep.violation(Finding("P3", "diff::dr", k, "violated: " + names[k], f, l))
 
 
+def check_p4(rep, idx, rule_id="P4", first_order_only=False):
+    """P4: the finite-difference step of an R^n coordinate never collapses: executing the step computation of dr_numerical for
+    |w_j| in {0, 1e-20, 1e-12, 1e-6, 1e-3, 1/2, 1, 40} must give a step of at least 1e-5 * base (base = the unscaled step sqrt(eps): a quotient of O(1) values is then accurate to about 1e-3).  A purely
+    relative step eps*|w_j| with a fallback only at exactly 0 falls below the rounding unit of O(1) function values for tiny
+    non-zero coordinates: the difference quotient is then exactly 0."""
+    from fractions import Fraction
+    rep.rule(rule_id, "dr_numerical: the step of a vector coordinate is bounded below (>= 1e-5 * base) for every coordinate value", minimum=1)
+    fns = [d for d in idx if d.kind in A.FUNCS and d.pattern and d.qname.split("::")[-1] == "dr_numerical" and A.body(d.node) is not None]
+    if len(fns) != 1:
+        rep.broke(rule_id + ": dr_numerical not found")
+        return
+    d = fns[0]
+    sites = []
+    for x in A.walk(A.body(d.node)):
+        if x.get("kind") == "CompoundStmt":
+            ks = A.kids(x)
+            for i, st in enumerate(ks):
+                if st.get("kind") == "DeclStmt":
+                    vs = [v for v in A.kids(st) if v.get("kind") == "VarDecl" and A.kids(v)]
+                    if len(vs) == 1 and i + 1 < len(ks) and ks[i + 1].get("kind") == "IfStmt" and "MatrixBase" in A.ntext(A.kids(ks[i + 1])[0]):
+                        init = A.to_expr(A.kids(vs[0])[-1])
+                        if init[0] == "ref":
+                            sites.append((vs[0].get("name"), init[1], ks[i + 1], st))
+    if len(sites) < 3:
+        rep.broke(rule_id + ": found %d step computations in dr_numerical, 3 confirmed by hand (first-order loop, two Hessian loops)" % len(sites))
+        return
+    if first_order_only:
+        # the Jacobian of minimize<Numerical> comes from the K == 1 loop: the step whose quotient is stored in J only (no Hessian entry nearby)
+        par = {}
+        for p_ in A.walk(A.body(d.node)):
+            for c_ in A.kids(p_):
+                par[id(c_)] = p_
+        keep = []
+        for site in sites:
+            blk = par.get(id(site[3]))
+            if blk is not None and "H(" not in A.ntext(blk):
+                keep.append(site)
+        sites = keep
+        if len(sites) != 1:
+            rep.broke(rule_id + ": expected one first-order step computation, found %d" % len(sites))
+            return
+    for var, base, ifs, decl in sites:
+        body = A.kids(ifs)[1]
+        coord = None
+        for y in A.walk(body):
+            if y.get("kind") in ("CallExpr",) and A.ntext(y).split("(")[0].split("::")[-1] in ("abs", "fabs"):
+                coord = A.show(A.to_expr(y))
+        f, l = A.loc(decl)
+        if coord is None:
+            rep.broke(rule_id + ": step computation at %s:%s does not scale by |coordinate|; re-confirm the rule" % (fe.rel(f), l))
+            continue
+        bad = None
+
+        class Stop(Exception):
+            pass
+
+        def ev(e, env, wv):
+            t = e[0]
+            if t == "num":
+                return Fraction(e[1])
+            if t == "ref":
+                if e[1] in env:
+                    return env[e[1]]
+                raise Stop("name %s" % e[1])
+            if t == "ctor" and len(e[2]) == 1:
+                return ev(e[2][0], env, wv)
+            if t == "neg":
+                return -ev(e[1], env, wv)
+            if t == "call":
+                nm = str(e[1]).split("::")[-1].split("<")[0]
+                if nm in ("abs", "fabs"):
+                    return abs(wv)
+                if nm in ("max", "min"):
+                    vals = [ev(a, env, wv) for a in e[2]]
+                    return max(vals) if nm == "max" else min(vals)
+                if nm in ("Scalar", "static_cast", "double", "float") and len(e[2]) == 1:
+                    return ev(e[2][0], env, wv)
+                raise Stop("call %s" % nm)
+            if t == "cond":
+                return ev(e[2], env, wv) if ev(e[1], env, wv) else ev(e[3], env, wv)
+            if t == "op":
+                op = e[1]
+                if op in ("=", "*=", "+=", "/="):
+                    v = ev(e[3], env, wv)
+                    if e[2][0] != "ref":
+                        raise Stop("assignment target")
+                    cur = env.get(e[2][1], Fraction(0))
+                    env[e[2][1]] = v if op == "=" else (cur * v if op == "*=" else (cur + v if op == "+=" else cur / v))
+                    return env[e[2][1]]
+                a, b = ev(e[2], env, wv), ev(e[3], env, wv)
+                if op == "/":
+                    return a / b
+                return {"+": lambda: a + b, "-": lambda: a - b, "*": lambda: a * b, "==": lambda: Fraction(int(a == b)), "!=": lambda: Fraction(int(a != b)),
+                        "<": lambda: Fraction(int(a < b)), "<=": lambda: Fraction(int(a <= b)), ">": lambda: Fraction(int(a > b)), ">=": lambda: Fraction(int(a >= b)),
+                        "&&": lambda: Fraction(int(bool(a) and bool(b))), "||": lambda: Fraction(int(bool(a) or bool(b)))}[op]()
+            raise Stop("expression %s" % A.show(e)[:40])
+
+        def ex(st, env, wv):
+            k = st.get("kind")
+            if k == "CompoundStmt":
+                for c in A.kids(st):
+                    ex(c, env, wv)
+            elif k == "IfStmt":
+                ks_ = A.kids(st)
+                if ev(A.to_expr(ks_[0]), env, wv):
+                    ex(ks_[1], env, wv)
+                elif len(ks_) > 2:
+                    ex(ks_[2], env, wv)
+            elif k in ("BinaryOperator", "CompoundAssignOperator", "CXXOperatorCallExpr", "ExprWithCleanups"):
+                ev(A.to_expr(st), env, wv)
+            elif k == "DeclStmt":
+                for v in A.kids(st):
+                    if v.get("kind") == "VarDecl" and A.kids(v):
+                        env[v.get("name")] = ev(A.to_expr(A.kids(v)[-1]), env, wv)
+            elif k == "NullStmt":
+                pass
+            else:
+                raise Stop("statement kind %s" % k)
+        try:
+            for wv in (Fraction(0), Fraction(1, 10 ** 20), Fraction(1, 10 ** 12), Fraction(1, 10 ** 6), Fraction(1, 1000), Fraction(1, 2), Fraction(1), Fraction(40)):
+                env = {base: Fraction(1), var: Fraction(1)}
+                ex(body, env, wv)
+                step = env[var]
+                if step < Fraction(1, 10 ** 5) and bad is None:
+                    bad = (wv, step)
+        except Stop as ex_:
+            rep.broke(rule_id + ": cannot execute the step computation at %s:%s: %s" % (fe.rel(f), l, ex_))
+            continue
+        rep.instance(rule_id, "dr_numerical", "step %s @%s" % (var, l), ok=bad is None, sample={"file": fe.rel(f), "line": l})
+        if bad:
+            rep.violation(Finding(rule_id, "dr_numerical", "step %s" % var,
+                                  "for a vector coordinate of magnitude %s the finite-difference step is %s * %s: below the rounding unit of O(1) function "
+                                  "values, so the difference quotient is exactly 0 (only a coordinate that is exactly 0 falls back to the default step)"
+                                  % (float(bad[0]), float(bad[1]), base), f, l))
+
+
 def check(rep, tier, replay=None):
     rep.explanations.append(
         "C08: P1 stack discipline of perturb/restore steps in dr_numerical (properly nested (E,-E) pairs with identical step "
